@@ -187,7 +187,7 @@ def run(ctx):
     ctx.clause = 'D6'
     dsa = ctx.func(DS + 'DataStream.add_noise')
     (r, I), (rr, IR) = agree_ref(ctx, dsa, REF_DS_ADD_NOISE, 'stream noise deviations add in quadrature', what=('heap',),
-                                 expand=False, rule='FORMULA', skip_attrs=('noise_sources',))
+                                 expand=False, rule='FORMULA', skip_attrs=('noise_sources',), ref_attrs_only=True)
 
     def appended(II):
         es = [e for e in II.events if e.kind == 'call' and e.data.get('name') == '.append'
@@ -201,7 +201,16 @@ def run(ctx):
     if a:
         va = ctx.apply(I, dsa, a[-1].data['args'][1], [sym('ts')])
         vb = ctx.apply(IR, dsa, b[-1].data['args'][1], [sym('ts')])
-        ctx.formula('FORMULA', 'noise source == v_mean + v_std * self.rng.standard_normal(len(ts))', dsa, va, vb,
+
+        def any_generator(t):
+            """which generator object draws the samples is C10/C12 business: compare the distribution only"""
+            def fn(x):
+                if x.kind == 'call' and x.args[0] == 'standard_normal' and x.args[1]:
+                    return T.mk_call('standard_normal', [sym('GENERATOR')] + list(x.args[1][1:]), x.args[2])
+                return None
+            return T.subst(t, fn)
+        va, vb = any_generator(va), any_generator(vb)
+        ctx.formula('FORMULA', 'noise source == v_mean + v_std * <generator>.standard_normal(len(ts))', dsa, va, vb,
                     node=a[-1].node, construct='noise_func')
     tn = ctx.func(DS + 'DataStream.get_total_noise_std')
     r, I = ctx.run(tn)
